@@ -78,3 +78,20 @@ M("c10-join-novalidate", "C10", [("chord", "    validate_chord_label(chord_label
 M("c10-split-novalidate", "C10", [("chord", "    chord_label = str(chord_label)\n    validate_chord_label(chord_label)\n", "    chord_label = str(chord_label)\n")], rule="C10.SPLITSAFE")
 M("c10-silent-re-reorder", "C10", [("chord", "(maj|min|dim|aug|1|5|sus2|sus4|", "(min|maj|aug|dim|5|1|sus4|sus2|")], expect="silent")
 M("c10-silent-re-degree-form", "C10", [("chord", "(/((b*|#*)([1-9]|1[0-3]?)))?", "(/((b*|#*)(1[0-3]|[1-9])))?")], expect="silent")
+
+# ------------------------------------------------------------------ C11
+M("c11-thirds-index", "C11", [("chord", "eq_thirds = ref_semitones[:, 3] == est_semitones[:, 3]", "eq_thirds = ref_semitones[:, 3] == est_semitones[:, 4]")], rule="C11.CONJ")
+M("c11-triads-prefix", "C11", [("chord", "    eq_semitones = np.all(np.equal(ref_semitones[:, :8], est_semitones[:, :8]), axis=1)\n    comparison_scores = (eq_roots * eq_semitones).astype(np.float64)", "    eq_semitones = np.all(np.equal(ref_semitones[:, :7], est_semitones[:, :7]), axis=1)\n    comparison_scores = (eq_roots * eq_semitones).astype(np.float64)")], rule="C11.CONJ")
+M("c11-tetrads-inv-nobass", "C11", [("chord", "comparison_scores = (eq_roots * eq_semitones * eq_basses).astype(np.float64)", "comparison_scores = (eq_roots * eq_semitones).astype(np.float64)", 1)], rule="C11.CONJ")
+M("c11-mask-est", "C11", [("chord", "    comparison_scores[np.any(ref_semitones < 0, axis=1)] = -1.0\n    return comparison_scores\n\n\ndef thirds_inv", "    comparison_scores[np.any(est_semitones < 0, axis=1)] = -1.0\n    return comparison_scores\n\n\ndef thirds_inv")], rule="C11.MASKREFONLY")
+M("c11-mask-both", "C11", [("chord", "    comparison_scores[np.any(ref_semitones < 0, axis=1)] = -1.0\n    return comparison_scores\n\n\ndef triads_inv", "    comparison_scores[np.any(ref_semitones < 0, axis=1) | np.any(est_semitones < 0, axis=1)] = -1.0\n    return comparison_scores\n\n\ndef triads_inv")], rule="C11.MASKREFONLY")
+M("c11-majmin-vocab", "C11", [("chord", '    min_semitones = np.array(QUALITIES["min"][:8])\n\n    ref_roots, ref_semitones, _ = encode_many', '    min_semitones = np.array(QUALITIES["dim"][:8])\n\n    ref_roots, ref_semitones, _ = encode_many')], rule="C11.VOCAB")
+M("c11-sevenths-vocab", "C11", [("chord", '    seventh_qualities = ["maj", "min", "maj7", "7", "min7", ""]\n    valid_semitones = np.array([QUALITIES[name] for name in seventh_qualities])\n\n    ref_roots, ref_semitones = encode_many', '    seventh_qualities = ["maj", "min", "maj7", "7", "min7", "dim7", ""]\n    valid_semitones = np.array([QUALITIES[name] for name in seventh_qualities])\n\n    ref_roots, ref_semitones = encode_many')], rule="C11.VOCAB")
+M("c11-mirex-threshold", "C11", [("chord", "        ref_semitone_count > 0, ref_semitone_count < min_intersection\n", "        ref_semitone_count > 0, ref_semitone_count < 2\n")], rule="C11.MIREXCONST")
+M("c11-mirex-norotate", "C11", [("chord", "    est_chroma = rotate_bitmaps_to_roots(est_data[1], est_data[0])", "    est_chroma = rotate_bitmaps_to_roots(est_data[1], ref_data[0])")], rule="C11.MIREXCONST")
+M("c11-mirex-noN", "C11", [("chord", "    comparison_scores[no_root] = 1.0\n", "")], rule="C11.MIREXCONST")
+M("c11-ternary-half", "C11", [("chord", "    comparison_scores[np.any(ref_semitones < 0, axis=1)] = -1.0\n    return comparison_scores\n\n\ndef tetrads_inv", "    comparison_scores[np.any(ref_semitones < 0, axis=1)] = -0.5\n    return comparison_scores\n\n\ndef tetrads_inv")], rule="C11.TERNARY")
+M("c11-reduce-true", "C11", [("chord", "    ref_roots, ref_semitones = encode_many(reference_labels, False)[:2]\n    est_roots, est_semitones = encode_many(estimated_labels, False)[:2]\n\n    eq_roots = ref_roots == est_roots\n    eq_semitones = np.all(np.equal(ref_semitones, est_semitones), axis=1)", "    ref_roots, ref_semitones = encode_many(reference_labels, True)[:2]\n    est_roots, est_semitones = encode_many(estimated_labels, False)[:2]\n\n    eq_roots = ref_roots == est_roots\n    eq_semitones = np.all(np.equal(ref_semitones, est_semitones), axis=1)")], rule="C11.CONJ")
+M("c11-inv-chordtone", "C11", [("chord", "    valid_inversion[bass_idx] = ref_semitones[bass_idx, ref_bass[bass_idx]]\n", "    valid_inversion[bass_idx] = est_semitones[bass_idx, ref_bass[bass_idx]]\n")], rule="C11.VOCAB")
+M("c11-silent-logical-and", "C11", [("chord", "    comparison_scores = (eq_roots * eq_thirds).astype(np.float64)", "    comparison_scores = np.logical_and(eq_roots, eq_thirds).astype(np.float64)")], expect="silent")
+M("c11-silent-unpack3", "C11", [("chord", "    ref_roots, ref_semitones = encode_many(reference_labels, False)[:2]\n    est_roots, est_semitones = encode_many(estimated_labels, False)[:2]\n\n    eq_roots = ref_roots == est_roots\n    eq_thirds", "    ref_roots, ref_semitones, _rb = encode_many(reference_labels, False)\n    est_roots, est_semitones, _eb = encode_many(estimated_labels, False)\n\n    eq_roots = ref_roots == est_roots\n    eq_thirds")], expect="silent")
